@@ -14,8 +14,8 @@ spy(J.Job, "move", "signac.job.Job.move")
 spy(P.Project, "clone", "signac.project.Project.clone")
 spy(J.Job, "init", "signac.job.Job.init")
 CODE = ["signac.job._StatePointDict._save (re-key protocol)", "signac.job.Job.statepoint setter / update_statepoint / move / init / _initialize_lazy_properties / cached_statepoint", "signac.project.Project.clone / open_job / _register"]
-BOUNDS = {"state points": "closed universe {a:0|1} x {b absent|0} plus nested {n:{c:0|1}} and list {l:[0|1,1]} variants", "routes": "item set, attribute set, add key, delete key, nested item set, list element set, whole assignment, update_statepoint(overwrite T/F)",
-          "destination": "absent / initialised with its own document and file / empty directory", "handles": "by state point, by id after restart, from iteration; sibling none / copy.copy / deepcopy / pickle round trip",
+BOUNDS = {"state points": "closed universe {a:0|1} x {b absent|0} plus nested {n:{c:0|1}} and list {l:[0|1,1]} variants", "routes": "item set, attribute set, add key, delete key, nested item set, list element set, whole assignment, update_statepoint(overwrite T/F), multi-key update, item set changing only the JSON type (1 -> 1.0, 0 -> False)",
+          "destination": "absent / initialised with its own document and file / empty directory / a regular file occupying the destination path; source initialised or a handle only", "handles": "by state point, by id after restart, from iteration; sibling none / copy.copy / deepcopy / pickle round trip",
           "payload": "document {k:1} or none; files f and sub/g or none"}
 OUTSIDE = ["edits that differ only by bool/int type (1 -> True): the synced-collection dependency keeps the ==-equal old value (silent no-op)", "cross-device moves (C11)", "siblings of a moved handle (only the moving handle adopts the destination project)"]
 STUBS = ["MemFS for os/shutil/open/uuid in signac.job, signac.project, signac._utility, synced_collections JSON backend (validated against the real FS by ./vf selftest)",
@@ -60,6 +60,10 @@ def _edit(base, route, v):
         return "sp_update", ({"a": v}, True), new
     if route == 8:
         return "sp_update", ({"a": v, "b": 0}, False), None
+    if route == 10:  # item set that changes only the JSON TYPE of the value (1 -> 1.0, 0 -> False): a different state point, a different id
+        tv = 1.0 if base.get("a") == 1 else False
+        new["a"] = tv
+        return "sp_set", ("a", tv), new
     if route == 9:   # multi-key update whose LATER key clashes / whose intermediate state may collide: must be all-or-nothing
         new["b"] = 0
         new["a"] = v
@@ -84,12 +88,20 @@ def _rekey_case(bi, route, v, dst_state, prov, sib, payload):
         files = {"f": b"F", "sub/g": b"G"} if payload & 2 else None
         s.add_job("/p", base, doc=doc, files=files)
         s.add_job("/p", {"a": 5}, doc={"other": 1}, files={"o": b"O"})
+        src_uninit = dst_state == 4      # state 4: the SOURCE job is a handle only (never initialised on disk)
+        if src_uninit:
+            if prov != 0 or payload != 0:
+                return None
+            s.model.ws("/p").pop(ws.key(base), None)
+            s.fs.delete_raw("/p/workspace/" + refs.canon_id(base))
         if new is not None and ws.key(new) != ws.key(base):
             if dst_state == 1:
                 s.add_job("/p", new, doc={"dst": 1}, files={"d": b"D"})
             elif dst_state == 2:
                 s.fs.put_dir("/p/workspace/" + refs.canon_id(new))
-        elif dst_state != 0:
+            elif dst_state == 3:
+                s.fs.put("/p/workspace/" + refs.canon_id(new), b"a regular file occupies the destination path")
+        elif dst_state not in (0, 4):
             return None  # destination states only matter when the id changes
         before = s.fs.snapshot("/p/workspace")
         if prov == 0:
@@ -109,8 +121,28 @@ def _rekey_case(bi, route, v, dst_state, prov, sib, payload):
         elif sib == 3:
             s.apply(0, "copy", "pickle", 1)
         if sib == 1:
-            # touch the lazy fields through the sibling so that stale caches would show
-            _ = s.handles[0].jobs[1].path, s.handles[0].jobs[1].document
+            # touch the lazy fields through the sibling so that stale caches would show (the document only for an initialised job:
+            # asking for the document initialises the job by design)
+            _ = s.handles[0].jobs[1].path
+            if not src_uninit:
+                _ = s.handles[0].jobs[1].document
+        blocked = new is not None and ws.key(new) != ws.key(base) and dst_state == 3
+        if blocked:
+            # the directory cannot be moved onto a regular file: the change must fail with an OSError and roll back completely
+            job = s.handles[0].jobs[-1]
+            try:
+                s.apply(0, op, *args)
+            except Exception:  # noqa
+                pass
+            raised = bool(s.errors) and s.errors[-1][-1] is not None
+            s.errors.clear()
+            s.handles[0].sp = copy.deepcopy(base)
+            s.model.ws("/p").pop(ws.key(new), None)
+            if ws.key(base) not in s.model.ws("/p"):
+                s.model.ws("/p")[ws.key(base)] = {"sp": copy.deepcopy(base), "doc": doc, "files": dict(files or {})}
+            after = s.fs.snapshot("/p/workspace")
+            ok = raised and after == before and s.handles_follow(0)
+            return ok, list(s.errors) + ([] if ok else [("blocked destination", raised, sorted(set(after) ^ set(before))[:4])])
         ok = s.apply(0, op, *args)
         collided = new is not None and ws.key(new) != ws.key(base) and dst_state == 1
         if collided:
@@ -134,10 +166,10 @@ def _rekey_case(bi, route, v, dst_state, prov, sib, payload):
 
 
 def h_rekey(bi: int, route: int, v: int, dst_state: int, prov: int, sib: int, payload: int):
-    assert 0 <= bi < 6 and 0 <= route <= 9 and 0 <= v <= 1 and 0 <= dst_state <= 2 and 0 <= prov <= 2 and 0 <= sib <= 3 and 0 <= payload <= 3 and part_ok(route)
+    assert 0 <= bi < 6 and 0 <= route <= 10 and 0 <= v <= 1 and 0 <= dst_state <= 4 and 0 <= prov <= 2 and 0 <= sib <= 3 and 0 <= payload <= 3 and part_ok(route)
     assert tier() != "quick" or (payload in (0, 3) and prov != 2)
     fresh_path()
-    bi, route, v, dst_state, prov, sib, payload = ci(bi, 0, 5), ci(route, 0, 9), ci(v, 0, 1), ci(dst_state, 0, 2), ci(prov, 0, 2), ci(sib, 0, 3), ci(payload, 0, 3)
+    bi, route, v, dst_state, prov, sib, payload = ci(bi, 0, 5), ci(route, 0, 10), ci(v, 0, 1), ci(dst_state, 0, 4), ci(prov, 0, 2), ci(sib, 0, 3), ci(payload, 0, 3)
     with nt():
         r = _rekey_case(bi, route, v, dst_state, prov, sib, payload)
     if r is None:
@@ -147,8 +179,8 @@ def h_rekey(bi: int, route: int, v: int, dst_state: int, prov: int, sib: int, pa
 
 
 def h_rekey__reach(bi: int, route: int, v: int, dst_state: int, prov: int, sib: int, payload: int):
-    assert 0 <= bi < 6 and 0 <= route <= 9 and 0 <= v <= 1 and 0 <= dst_state <= 2 and 0 <= prov <= 2 and 0 <= sib <= 3 and 0 <= payload <= 3
-    bi, route, v, dst_state = ci(bi, 0, 5), ci(route, 0, 9), ci(v, 0, 1), ci(dst_state, 0, 2)
+    assert 0 <= bi < 6 and 0 <= route <= 10 and 0 <= v <= 1 and 0 <= dst_state <= 4 and 0 <= prov <= 2 and 0 <= sib <= 3 and 0 <= payload <= 3
+    bi, route, v, dst_state = ci(bi, 0, 5), ci(route, 0, 10), ci(v, 0, 1), ci(dst_state, 0, 2)
     with nt():
         base = BASES[bi]
         ed = _edit(base, route, v)
@@ -174,6 +206,8 @@ def _move_case(bi, kind, src_init, dst_state, payload, sib, then=0):
         s.open(0, "/p", base)
         if sib == 1:
             s.apply(0, "copy", "copy")
+        if src_init and payload & 1:
+            _ = s.handles[0].jobs[-1].document()     # the document handle exists BEFORE the move / clone (lazy fields must be refreshed)
         if kind == 1 and dst_state == 2 and src_init:
             # clone into an existing empty directory: either outcome is acceptable as long as nothing is clobbered
             # (shutil.copytree refuses an existing directory -> DestinationExistsError, everything untouched)
@@ -302,7 +336,7 @@ def h_assign_alias(bi: int, v: int, mut: int, same_session: bool):
 
 HARNESSES = [
     dict(name="h_assign_alias", timeout=(300, 600)),
-    dict(name="h_rekey", twin="h_rekey__reach", timeout=(600, 1500), parts=(10, 10)),
+    dict(name="h_rekey", twin="h_rekey__reach", timeout=(600, 1500), parts=(11, 11)),
     dict(name="h_move_clone", timeout=(400, 900), parts=(4, 4)),
     dict(name="h_update_sp", timeout=(300, 600)),
 ]
